@@ -900,6 +900,24 @@ Definition expect_clientV2_StartClose : list string :=
   [ "call c.SetReadyCount"
   ; "call atomic.StoreInt32" ].
 
+(* the consumer side of an Empty: wakes the pump, does NOT store into the in-flight count (the channel has released it per message: F23) *)
+Definition expect_clientV2_Empty : list string :=
+  [ "call c.tryUpdateReadyState" ].
+
+(* fresh in-flight and deferred structures; the in-flight set that was replaced is handed back to the caller *)
+Definition expect_Channel_initPQ : list string :=
+  [ "call c.nsqd.getOpts"
+  ; "call float64"
+  ; "call math.Max"
+  ; "call c.inFlightMutex.Lock"
+  ; "set discarded=c.inFlightMessages"
+  ; "call newInFlightPqueue"
+  ; "call c.inFlightMutex.Unlock"
+  ; "call c.deferredMutex.Lock"
+  ; "call pqueue.New"
+  ; "call c.deferredMutex.Unlock"
+  ; "return" ].
+
 (* connection ids come from ONE atomic increment (never reused, never shared) *)
 Definition expect_protocolV2_NewClient : list string :=
   [ "call atomic.AddInt64"
@@ -1074,6 +1092,8 @@ Definition src_facts_C01 : Prop :=
   /\ shape_clientV2_TimedOutMessage = expect_clientV2_TimedOutMessage
   /\ shape_clientV2_RequeuedMessage = expect_clientV2_RequeuedMessage
   /\ shape_clientV2_StartClose = expect_clientV2_StartClose
+  /\ shape_clientV2_Empty = expect_clientV2_Empty
+  /\ shape_Channel_initPQ = expect_Channel_initPQ
   /\ shape_protocolV2_NewClient = expect_protocolV2_NewClient
   /\ shape_Channel_doPause = expect_Channel_doPause
   /\ shape_Topic_doPause = expect_Topic_doPause
@@ -1128,6 +1148,8 @@ Definition src_facts_C02 : Prop :=
   /\ shape_clientV2_TimedOutMessage = expect_clientV2_TimedOutMessage
   /\ shape_clientV2_RequeuedMessage = expect_clientV2_RequeuedMessage
   /\ shape_clientV2_StartClose = expect_clientV2_StartClose
+  /\ shape_clientV2_Empty = expect_clientV2_Empty
+  /\ shape_Channel_initPQ = expect_Channel_initPQ
   /\ shape_protocolV2_NewClient = expect_protocolV2_NewClient
   /\ shape_Channel_doPause = expect_Channel_doPause
   /\ shape_Topic_doPause = expect_Topic_doPause
@@ -1182,6 +1204,8 @@ Definition src_facts_C03 : Prop :=
   /\ shape_clientV2_TimedOutMessage = expect_clientV2_TimedOutMessage
   /\ shape_clientV2_RequeuedMessage = expect_clientV2_RequeuedMessage
   /\ shape_clientV2_StartClose = expect_clientV2_StartClose
+  /\ shape_clientV2_Empty = expect_clientV2_Empty
+  /\ shape_Channel_initPQ = expect_Channel_initPQ
   /\ shape_protocolV2_NewClient = expect_protocolV2_NewClient
   /\ shape_Channel_doPause = expect_Channel_doPause
   /\ shape_Topic_doPause = expect_Topic_doPause
@@ -1236,6 +1260,8 @@ Definition src_facts_C04 : Prop :=
   /\ shape_clientV2_TimedOutMessage = expect_clientV2_TimedOutMessage
   /\ shape_clientV2_RequeuedMessage = expect_clientV2_RequeuedMessage
   /\ shape_clientV2_StartClose = expect_clientV2_StartClose
+  /\ shape_clientV2_Empty = expect_clientV2_Empty
+  /\ shape_Channel_initPQ = expect_Channel_initPQ
   /\ shape_protocolV2_NewClient = expect_protocolV2_NewClient
   /\ shape_Channel_doPause = expect_Channel_doPause
   /\ shape_Topic_doPause = expect_Topic_doPause
@@ -1290,6 +1316,8 @@ Definition src_facts_C05 : Prop :=
   /\ shape_clientV2_TimedOutMessage = expect_clientV2_TimedOutMessage
   /\ shape_clientV2_RequeuedMessage = expect_clientV2_RequeuedMessage
   /\ shape_clientV2_StartClose = expect_clientV2_StartClose
+  /\ shape_clientV2_Empty = expect_clientV2_Empty
+  /\ shape_Channel_initPQ = expect_Channel_initPQ
   /\ shape_protocolV2_NewClient = expect_protocolV2_NewClient
   /\ shape_Channel_doPause = expect_Channel_doPause
   /\ shape_Topic_doPause = expect_Topic_doPause
@@ -1344,6 +1372,8 @@ Definition src_facts_C08 : Prop :=
   /\ shape_clientV2_TimedOutMessage = expect_clientV2_TimedOutMessage
   /\ shape_clientV2_RequeuedMessage = expect_clientV2_RequeuedMessage
   /\ shape_clientV2_StartClose = expect_clientV2_StartClose
+  /\ shape_clientV2_Empty = expect_clientV2_Empty
+  /\ shape_Channel_initPQ = expect_Channel_initPQ
   /\ shape_protocolV2_NewClient = expect_protocolV2_NewClient
   /\ shape_Channel_doPause = expect_Channel_doPause
   /\ shape_Topic_doPause = expect_Topic_doPause
@@ -1398,6 +1428,8 @@ Definition src_facts_C13 : Prop :=
   /\ shape_clientV2_TimedOutMessage = expect_clientV2_TimedOutMessage
   /\ shape_clientV2_RequeuedMessage = expect_clientV2_RequeuedMessage
   /\ shape_clientV2_StartClose = expect_clientV2_StartClose
+  /\ shape_clientV2_Empty = expect_clientV2_Empty
+  /\ shape_Channel_initPQ = expect_Channel_initPQ
   /\ shape_protocolV2_NewClient = expect_protocolV2_NewClient
   /\ shape_Channel_doPause = expect_Channel_doPause
   /\ shape_Topic_doPause = expect_Topic_doPause
